@@ -1361,6 +1361,14 @@ def _r13(ctx):
 _r13.__doc__ = "no intermediate of a bounded closed-form coefficient overflows (see c01_ovf)"
 
 
+def _r14(ctx):
+    from .c01_hom import r14_scale_free_regimes
+    r14_scale_free_regimes(ctx)
+
+
+_r14.__doc__ = "the under / critical / over-damped switch of an elastic mode is scale-free (see c01_hom)"
+
+
 RULES = [
     ("C01-R1", r1_coef_identities, 150),
     ("C01-R1b", r1b_regime_selectors, 14),
@@ -1374,6 +1382,7 @@ RULES = [
     ("C01-R11", r11_complex_unc_batch, 24),
     ("C01-R12", _r12, 2),
     ("C01-R13", _r13, 8),
+    ("C01-R14", _r14, 6),
 ]
 
 LEVEL = "other"
